@@ -32,6 +32,7 @@ func propC09(c *Ctx) {
 	c.ruleTraceRecorder("C09-TRACE-RECORDER")
 	// a piece may end without a line break wherever a line may end
 	if m := c.E1Base(); m != nil {
+		c.ruleOpenTransparent(m, "C09-OPEN-TRANSPARENT") // a piece may end right after an opening parenthesis: the scanner does not ask for the closing one
 		c.ruleEOFAsEOL(m, c.Analysis(stackK, false))
 		c.ruleStartState(m, "C09-START-STATE")
 	}
@@ -626,6 +627,8 @@ func propC15(c *Ctx) {
 	c.ruleMemoCoverage("C15-MEMO-KEY-COVERS")
 	c.ruleFirstByteTables("C15-KEYWORD-PREFILTER")
 	c.ruleNextDirectiveRecognised("C15-NEXT-DIRECTIVE")
+	c.ruleInsertAliasing("C15-INSERT-ALIASING")
+	c.ruleWalkResultDiscarded("C15-WALK-RESULT-DISCARDED") // a walk over the user types that ends early makes what follows depend on the order of the blocks
 	// block order: a top-level block must not inherit from the block before it (a root-list directive gets no Parent),
 	// and a name declared by one block is never replaced by what a later block creates implicitly
 	c.ruleC11WalkUp()
